@@ -244,6 +244,9 @@ func readOptHeader(r io.Reader, d io.Writer, peStart int64, fh *pe.FileHeader) (
 	if _, err := io.ReadFull(r, buf); err != nil {
 		return nil, err
 	}
+	if len(buf) < 2 {
+		return nil, errors.New("PE optional header is too short")
+	}
 	// locate the bits that need to be omitted from hash
 	cksumStart := 64
 	cksumEnd := cksumStart + 4
@@ -279,6 +282,9 @@ func readOptHeader(r io.Reader, d io.Writer, peStart int64, fh *pe.FileHeader) (
 		hvals.fileAlign = opt.FileAlignment
 	default:
 		return nil, errors.New("unrecognized optional header magic")
+	}
+	if hvals.fileAlign == 0 {
+		return nil, errors.New("PE file alignment is zero")
 	}
 	dd4End := dd4Start + 8
 	hvals.certStart = int64(dd.VirtualAddress)
